@@ -75,7 +75,14 @@ func (m *leanModel) circuitDef(prefix string) *ldef {
 	return nil
 }
 
-func genC17m(t *rapid.T) c17mCase {
+func genC17m(t *rapid.T) c17mCase { return genC17mWith(t, false) }
+
+// genC17mFocus draws only the witnesses that violate exactly ONE assertion of the circuit while everything downstream is
+// consistent with it (a write onto an occupied leaf with the post-root of that write; a deletion presenting the wrong
+// item with the genuine path): the classes that tell "asserted" from "not asserted" for the two membership checks.
+func genC17mFocus(t *rapid.T) c17mCase { return genC17mWith(t, true) }
+
+func genC17mWith(t *rapid.T, focus bool) c17mCase {
 	c := c17mCase{Mode: pick(t, "mode", "insertion", "deletion")}
 	var depth, batch int
 	if rapid.IntRange(0, 2).Draw(t, "src") == 0 {
@@ -87,11 +94,36 @@ func genC17m(t *rapid.T) c17mCase {
 	}
 	h := genHistory(t, depth, 8)
 	wantValid := rapid.Bool().Draw(t, "want_valid") // half of the cases start from a relation-valid batch
+	if focus {
+		wantValid = c.Mode == "deletion"
+		if len(h.Tree.Occupied()) == 0 {
+			h.Tree.Set(rapid.Uint64Range(0, maxLeaf(depth)).Draw(t, "focus_seed_leaf"), big.NewInt(5))
+		}
+	}
 	if c.Mode == "insertion" {
 		cls, w := genInsertion(t, h, batch)
 		if wantValid {
 			if v := genValidInsertion(t, h, batch); v != nil {
 				cls, w = "valid", v
+			}
+		}
+		// a batch whose ONLY fault is a non-empty target leaf (post-root computed as if the write were allowed): the one
+		// class that separates "emptiness asserted" from "emptiness not asserted", too rare under genInsertion alone
+		if !wantValid && (focus || rapid.Bool().Draw(t, "focus_occupied")) {
+			if occ := h.Tree.Occupied(); len(occ) > 0 {
+				o := occ[rapid.IntRange(0, len(occ)-1).Draw(t, "focus_occ")]
+				slot := uint64(rapid.IntRange(0, batch-1).Draw(t, "focus_slot"))
+				s := uint64(0)
+				if slot <= o {
+					s = o - slot
+				}
+				if s+uint64(batch)-1 <= maxLeaf(depth) {
+					ids := make([]*big.Int, batch)
+					for i := range ids {
+						ids[i] = genCommitment(t, "fid", ids[:i])
+					}
+					cls, w = "occupied-leaf-consistent", forceInsertion(h.Tree.Clone(), s, ids)
+				}
 			}
 		}
 		c.Class, c.Ins = cls, w
@@ -101,10 +133,27 @@ func genC17m(t *rapid.T) c17mCase {
 		if wantValid {
 			cls, w = "valid", genValidDeletion(t, h, batch)
 		}
+		if focus {
+			var realSlots []int
+			for i, ix := range w.Idx {
+				if ix.Cmp(ref.Pow2(depth)) < 0 {
+					realSlots = append(realSlots, i)
+				}
+			}
+			if len(realSlots) > 0 {
+				i := realSlots[rapid.IntRange(0, len(realSlots)-1).Draw(t, "focus_del_slot")]
+				w.Ids[i] = addMod(w.Ids[i], pick(t, "focus_del_delta", int64(1), -1, 3))
+				cls = "wrong-item-only"
+			}
+		}
 		c.Class, c.Del = cls, w
 		c.Public = delCanonicalHash(w)
 	}
-	switch rapid.IntRange(0, 9).Draw(t, "variant") {
+	variant := rapid.IntRange(0, 9).Draw(t, "variant")
+	if focus {
+		variant = 9
+	}
+	switch variant {
 	case 0, 1:
 		c.Public = addMod(c.Public, pick(t, "pm", int64(1), -1))
 		c.Class += "+wrong-hash"
@@ -249,7 +298,17 @@ func runC17m(c c17mCase) Result {
 	return ok(class+"/"+verdict, true).tag("gen:" + c.Class)
 }
 
-func init() { registerReplay("TestC17_ModelSemantics", runC17m) }
+func init() {
+	registerReplay("TestC17_ModelSemantics", runC17m)
+	registerReplay("TestC17_ModelFocus", runC17m)
+}
+
+func TestC17_ModelFocus(t *testing.T) {
+	if _, err := c17Model("committed", 30, 4); err != nil {
+		t.Logf("committed model: %v", err)
+	}
+	RunRapid(t, Check[c17mCase]{Prop: "C17", Test: "TestC17_ModelFocus", Gen: genC17mFocus, Run: runC17m})
+}
 
 func TestC17_ModelSemantics(t *testing.T) {
 	if _, err := c17Model("committed", 30, 4); err != nil {
